@@ -25,6 +25,9 @@ ASSUMPTIONS = ["sequentially consistent interleavings that switch only at pthrea
                "deadlock freedom = some thread can always step; termination of the busy join-all loop additionally needs a fair scheduler",
                "thread-local storage (tl_wrapper) and real stacks are not modelled; thread functions terminate",
                "now + timeout < 2^64 (the deadline of aws_thread_join_all_managed does not wrap)",
+               "handle reuse: the model has one thread per slot, so every launch/join cycle of a reused handle is a slot of its own "
+               "(`U@h`) and the handle state is carried by the implementation only (c20_launch_marks_joinable states that a "
+               "successful launch sets it whatever it was); reuse after a MANAGED launch is excluded: /repo leaves MANAGED in the handle",
                "library re-initialisation with an empty pending-join list: /repo drops wrappers parked there (never joined, "
                "count stuck); the model counts them (`dropped`, reported by the driver) and the generator keeps that window closed"]
 RULE = ("programs of 1..6 thread slots (manual/managed, nested launches, 0..4 at-exit registrations, joins, count reads, "
@@ -35,7 +38,8 @@ RULE = ("programs of 1..6 thread slots (manual/managed, nested launches, 0..4 at
         "pthread_attr_init / setstacksize / getstacksize fails (launch fails) or pthread_attr_setaffinity_np fails (retried "
         "unpinned), managed-join timeouts at the type limits (2^31-1 .. 2^63-1, 2^63, 2^63+1, 0xC000.., 2^64-1-now) with the "
         "virtual clock started near 0 / at 2^40 / 2^62 / above 2^63, aws_common_library_clean_up + init cycles whose "
-        "internal join-all runs into the timeout while a managed thread sleeps) x schedules "
+        "internal join-all runs into the timeout while a managed thread sleeps, one aws_thread handle going through 2..4 "
+        "manual launch/join cycles without re-initialisation) x schedules "
         "(choice lists from the PRNG, spurious wake-ups, and every schedule of small programs up to a preemption bound, "
         "enumerated on the model); non-trivial = at least two threads of which one is managed")
 NOT_PROVED = []
@@ -67,6 +71,71 @@ def legal_timeout(rng, start):
     ok = [t for t in BIG_TIMEOUTS if now + t + MARGIN < U64]
     ok.append(U64 - 1 - now - MARGIN)
     return rng.choice(ok)
+
+
+def gen_reuse(rng):
+    """one aws_thread handle goes through 2..4 manual launch / join cycles without being re-initialised (legal: after a
+    completed join the handle is JOIN_COMPLETED and aws_thread_launch marks it JOINABLE again), mixed with other
+    threads.  Every cycle is a slot of its own (`U@h`: launched on the handle of slot h); the owner of the handle runs the
+    cycles in order.  Reuse after a MANAGED launch is not generated: the unchanged library leaves MANAGED in the handle
+    (after a failed as well as after a successful launch), so a later manual launch... is never joinable from outside and
+    a managed relaunch double-counts (recorded observation) - `aws_thread_init` before each launch is the implied contract
+    there."""
+    cycles = rng.randint(2, 4)
+    nother = rng.randint(0, min(3, 7 - cycles - 1))
+    owner_is_thread = nother < 3 and rng.random() < 0.4
+    chain = list(range(1, cycles + 1))
+    nxt = cycles + 1
+    owner = 0
+    ops = []
+
+    def quick():
+        acts = [f"A{c}" for c in rng.sample(range(1, 10), rng.choice([0, 1, 1, 2]))]
+        acts += ["Y"] * rng.choice([0, 1, 2]) + ["N"] * rng.choice([0, 0, 1]) + ["C"] * rng.choice([0, 0, 1])
+        rng.shuffle(acts)
+        return acts
+    seq = []
+    for i, c in enumerate(chain):
+        kind = "U" if i == 0 else f"U@{chain[0]}"
+        ops.append((f"slot {c} {kind} " + " ".join(quick())).rstrip())
+        seq.append(rng.choice(["L", "L", "L", "P", "H", "Q"]) + str(c) + ("n" if rng.random() < 0.3 else ""))
+        seq += ["Y"] * rng.choice([0, 0, 1])
+        seq.append(f"J{c}")
+        if rng.random() < 0.2:
+            seq.append(rng.choice([f"J{c}", f"D{c}"]))    # on the JOIN_COMPLETED handle: no-ops
+    if owner_is_thread:
+        owner = nxt
+        nxt += 1
+    main, managed = [], 0
+    for _ in range(nother):
+        k = nxt
+        nxt += 1
+        m = rng.random() < 0.6
+        managed += m
+        ops.append((f"slot {k} {'M' if m else 'U'} " + " ".join(quick())).rstrip())
+        main.append(f"L{k}" + ("n" if rng.random() < 0.3 else ""))
+        if not m:
+            main.append(f"J{k}")
+
+    def weave(base, extra):
+        out = list(base)
+        for e in extra:
+            # an item keeps its order relative to the items of `extra` placed before it only when it is a join
+            lo = out.index("L" + e[1:]) + 1 if e[0] == "J" and ("L" + e[1:]) in out else 0
+            lo = max([lo] + [i + 1 for i, x in enumerate(out) if e[0] == "J" and x.rstrip("n")[1:] == e[1:] and x[0] in LAUNCH])
+            out.insert(rng.randint(lo, len(out)), e)
+        return out
+    if owner:
+        ops.append(f"slot {owner} U " + " ".join(weave(seq, quick())))
+        main = weave(main, [f"L{owner}"])
+        main.insert(rng.randint(main.index(f"L{owner}") + 1, len(main)), f"J{owner}")
+    else:
+        main = weave(seq, main)
+    main.append("W")
+    if rng.random() < 0.3:
+        main.append("C")
+    ops.append("main " + " ".join(main))
+    return ops, {"n": nxt - 1, "managed": managed, "time": False, "reuse": cycles}
 
 
 def gen_timed_cleanup(rng):
@@ -104,6 +173,8 @@ def gen_timed_cleanup(rng):
 def gen_program(rng, nmax=6, allow_time=True):
     if allow_time and rng.random() < 0.05:
         return gen_timed_cleanup(rng)
+    if allow_time and rng.random() < 0.06:
+        return gen_reuse(rng)
     n = rng.randint(1, nmax) if rng.random() < 0.8 else rng.randint(1, 3)
     use_time = allow_time and rng.random() < 0.2
     start = rng.choice(CLOCKS) if rng.random() < 0.3 else 0
@@ -282,6 +353,9 @@ SMALL = [
     # the clean-up's internal join-all times out while a managed thread sleeps; the library is initialised again
     ("timeout-above-2^32-expires", ["slot 1 M S20000000000", "slot 2 M S20000000000 A1", "main T5000000000 L1 L2 W T0 W C", "tick 50"],
      (1, 110, 300), (2, 130, 4000)),
+    # one handle, several manual launch/join cycles without re-initialisation (slot 2 and 3 run on slot 1's handle)
+    ("handle-reuse", ["slot 1 U A1", "slot 2 U@1 A2 Y", "slot 3 U@1 A3", "slot 4 M Y", "main L1 L4 J1 L2n J2 J2 P3 J3 W"], (2, 80, 400), (3, 100, 8000)),
+    ("handle-reuse-nested", ["slot 1 U Y", "slot 2 U@1 A1 A2", "slot 3 U L1 J1 H2 J2 D2", "main L3 J3 W"], (2, 80, 400), (3, 100, 6000)),
     ("cleanup-timeout", ["slot 1 M S20000 A1", "slot 2 M", "main L1 L2 T600 X T0 W C", "tick 50"], (1, 110, 300), (2, 130, 4000)),
     ("create-window-3", ["slot 1 M L2n", "slot 2 M L3", "slot 3 M", "main L1n W"], (1, 100, 400), (2, 120, 8000)),
 ]
@@ -323,6 +397,8 @@ def parse_program(case):
         t = op.split()
         if t[0] == "slot" and len(t) >= 3:
             prog["slots"][int(t[1])] = (t[2] == "M", t[3:])
+            if "@" in t[2]:
+                prog.setdefault("alias", {})[int(t[1])] = int(t[2].split("@")[1])
         elif t[0] == "main":
             prog["main"] = t[1:]
         elif t[0] == "fail":
@@ -396,6 +472,15 @@ def oracle(case, lines):
             if by == f"s{k}" and pre == "JOINABLE" and rc != "AWS_ERROR_THREAD_DEADLOCK_DETECTED":
                 errs.append(f"self-join on slot {k} was not refused: {l}")
             joins.setdefault(k, []).append(i)
+    # a successful manual launch leaves the handle JOINABLE (whatever state it was in before, e.g. JOIN_COMPLETED on a
+    # reused handle): the launcher's first join after it must be a real join
+    allacts = [a for v in prog["slots"].values() for a in v[1]] + list(prog["main"])
+    for k, ok in launch_ok.items():
+        if not ok or managed.get(k, False) or f"D{k}" in allacts:
+            continue
+        after = [i for i in joins.get(k, []) if i > launch_line[k] and f"by=s{k} " not in P[i]]
+        if after and "pre=JOINABLE" not in P[after[0]]:
+            errs.append(f"slot {k}: the handle of a successfully launched manual thread was not JOINABLE at its first join: {P[after[0]]}")
     # thread names: a thread launched with options->name sees that name, others do not
     named_slot, launcher = {}, {}
     bodies = {k: v[1] for k, v in prog["slots"].items()}
@@ -547,7 +632,7 @@ def nontrivial(case):
 
 def distribution(cases, c_out):
     d = {"threads": {}, "managed_slots": 0, "manual_slots": 0, "atexit_regs": 0, "joinall_calls": 0, "timeouts_cfg": 0,
-         "create_fail": 0, "current_name": 0, "lib_cleanup": 0, "call_once": 0, "once_flags_with_atexit": 0, "lib_reinit": 0, "named_launch": 0, "pinned_launch": 0, "pinned_retry": 0, "pinned_retry_fails": 0, "joinall_ok": 0, "joinall_err": 0, "cleanup_joinall": 0, "timed_cleanup": 0, "attr_fault_launch": 0, "attr_fault_retry": 0, "timeout_ge_2_63": 0, "timeout_ge_2_31": 0, "clock_start_set": 0, "sync_events": 0, "spurious": 0, "waits": 0, "exhaustive_scheds": 0}
+         "create_fail": 0, "current_name": 0, "lib_cleanup": 0, "call_once": 0, "once_flags_with_atexit": 0, "lib_reinit": 0, "named_launch": 0, "pinned_launch": 0, "pinned_retry": 0, "pinned_retry_fails": 0, "joinall_ok": 0, "joinall_err": 0, "cleanup_joinall": 0, "timed_cleanup": 0, "handle_reuse_programs": 0, "handle_reuse_cycles": 0, "attr_fault_launch": 0, "attr_fault_retry": 0, "timeout_ge_2_63": 0, "timeout_ge_2_31": 0, "clock_start_set": 0, "sync_events": 0, "spurious": 0, "waits": 0, "exhaustive_scheds": 0}
     for i, c in enumerate(cases):
         n = c.tags.get("n", 0)
         d["threads"][str(n)] = d["threads"].get(str(n), 0) + 1
@@ -555,6 +640,9 @@ def distribution(cases, c_out):
             d["exhaustive_scheds"] += 1
         if c.tags.get("timed_cleanup"):
             d["timed_cleanup"] += 1
+        if c.tags.get("reuse"):
+            d["handle_reuse_programs"] += 1
+            d["handle_reuse_cycles"] += c.tags["reuse"]
         for o in c.ops:
             t = o.split()
             if t[0] == "slot":
